@@ -22,7 +22,7 @@ def main():
     r = sh("make -j8 testcpu >/dev/null 2>&1 && ./testcpu 2>&1 | tail -3", cwd=W)
     tests = "PASSED  ] 30 tests" in r.stdout
     build = meta.get("demo_build", "")
-    flags = " ".join(f for f in ["-mavx512f", "-D__AVX512__", "-O3", "-O0", "-O2"] if f in build.split())
+    flags = " ".join(f for f in build.split() if f in ("-mavx512f", "-D__AVX512__", "-O3", "-O0", "-O2") or f.startswith("-fsanitize") or f.startswith("-fno-sanitize"))
     opt = "" if any(o in flags for o in ("-O3", "-O0", "-O2")) else "-O1"
     cmd = "g++ -std=c++17 %s %s -mavx2 -fopenmp -I %s/src %s/demo.cpp %s/src/*.cpp -lgmp -lgmpxx -lpthread -o %s/demo_bin" % (opt, flags, W, D, W, D)
     b1 = sh(cmd); p = sh(D + "/demo_bin", timeout=900)
